@@ -1,4 +1,4 @@
-//@@ unit c16_request properties=C16
+//@@ unit c16_request properties=C16,C01
 #![allow(unused_imports, dead_code, unused_variables, unused_mut, unused_assignments)]
 use vstd::prelude::*;
 
@@ -35,7 +35,12 @@ pub struct ToolCallCollector { pub filler: u8 }
 // the sink of the session stream: frames are handed over with the seq the caller stamps on them
 #[derive(Clone, Copy)]
 pub struct EventSink { pub filler: u8 }
-impl EventSink { #[verifier::external_body] pub fn emit(&self, e: Event) { unimplemented!() } }
+impl EventSink {
+    // R11 hands the current value of the stream counter to every emission (`req.sink.emit(X)` ==> `req.sink.emit_at(*req.seq, X)`)
+    #[verifier::external_body] pub fn emit_at(&self, cur: u64, e: Event)
+        requires e.seq == cur,      // [request.every_frame_is_stamped_with_the_stream_counter]
+    { unimplemented!() }
+}
 // request dump (observability): at most one frame, stamped with the seq it was given
 pub mod observability { use super::*; verus! {
     pub struct OpenResponsesRequestDumpConfig { pub filler: u8 }
@@ -107,8 +112,12 @@ pub assume_specification<T: std::ops::Deref>[ std::option::Option::<T>::as_deref
 //@@ rewrite response.headers().get(reqwest::header::CONTENT_TYPE).and_then(|value| value.to_str().ok()).map(|value| value.to_string()) => content_type_of(&response)
 //@@ rewrite req.payload.errors().to_vec() => strings_copy(req.payload.errors())
 //@@ rewrite req.payload.body().to_string() => value_text(req.payload.body())
+//@@ rewrite req.sink .emit(Event { ==>> proof { assert(*req.seq == stamped); stamped = stamped + 1; }      // [request.the_counter_advances_exactly_once_per_frame]\n req.sink.emit_at(*req.seq, Event {
+//@@ rewrite req.sink.emit(event) ==>> proof { assert(*req.seq == stamped); stamped = stamped + 1; }      // [request.the_counter_advances_exactly_once_per_frame]\n req.sink.emit_at(*req.seq, event)
 //@@ sig
     requires *old(req.seq) < u64::MAX - 8,
+//@@ entry
+    let ghost mut stamped: int = *req.seq as int;      // the seq the next frame of this function must carry
 //@@ loop 0
     invariant
         __i0 <= __s0.len(),
